@@ -761,6 +761,6 @@ def svd_case_st(draw, tier="quick", known=()):
 def tasks(tier):
     known = _known_sites()
     return [
-        Task("eig", strategy=eig_case_st(tier, known=known), run=run_eig, examples={"quick": 1200, "thorough": 110000}),
-        Task("svd", strategy=svd_case_st(tier, known=known), run=run_svd, examples={"quick": 600, "thorough": 55000}),
+        Task("eig", strategy=eig_case_st(tier, known=known), run=run_eig, examples={"quick": 4800, "thorough": 130000}),
+        Task("svd", strategy=svd_case_st(tier, known=known), run=run_svd, examples={"quick": 2400, "thorough": 65000}),
     ]
